@@ -641,6 +641,8 @@ def _bounded_stand_in(self, tier, undecided):
                     return [dict(name="compare_agrees_with_decision", reproduced=True, input=v,
                                  observed=ProtocolVersion.compare(v, CUTOFF), required="negative iff older")]
     return [dict(name="supports_batching", reproduced=False, cases=n,
+                 covers="batching.py::supports_batching|batching.py::should_reject_batch|batching.py::BatchProcessor|"
+                        "versioning.py::ProtocolVersion.compare",
                  bound=f"all dddd-dd-dd strings with year in {years.start}..{years.stop - 1} (bounded, not a proof)")]
 
 
